@@ -1,5 +1,8 @@
 import Abmarl.Props.C01
 import Abmarl.Props.Examples
+import Abmarl.Props.Corridor
+import Abmarl.Props.MultiGrid
+import Abmarl.Props.Reach
 #print axioms Abmarl.C01_managers_honour_done_protocol
 #print axioms Abmarl.C01_stub
 #print axioms Abmarl.specLoop_at
@@ -22,3 +25,14 @@ import Abmarl.Props.Examples
 #print axioms Abmarl.examples_hist
 #print axioms Abmarl.examples_get_reward_total
 #print axioms Abmarl.C01_MultiMaze
+#print axioms Abmarl.C01_MultiCorridor
+#print axioms Abmarl.Cor.cor_lawful
+#print axioms Abmarl.Cor.cor_WF
+#print axioms Abmarl.corridor_hist
+#print axioms Abmarl.C01_MultiAgentGridSim
+#print axioms Abmarl.MAG.mag_lawful
+#print axioms Abmarl.MAG.mag_WF
+#print axioms Abmarl.multigrid_hist
+#print axioms Abmarl.C01_ReachTheTarget
+#print axioms Abmarl.RT.rt_lawful
+#print axioms Abmarl.RT.rt_WF
